@@ -279,6 +279,21 @@ def run_case(case):
                      "%s level %d at the end: bodies run again: %s" % (label, l, [e[1] for e in REC.since(mark)]))
             out["obs"]["levels_served_again_at_the_end"] += 1
             check_partition(out, fail, again, overlays[l], label, "level %d, served again after its children were stored" % l)
+        # a parent whose own store fails part-way (one of its values cannot be stored) is handed to the caller all the same;
+        # a child that declares it as merge parent shows the whole overlay at every call, memoized or not
+        if case["idx"] % 3 == 0 and not out["viol"]:
+            for n in range(3):
+                try:
+                    got = ffuncs.child_of_unstorable(cid)
+                except Exception as e:
+                    fail("call returning a partition raises " + type(e).__name__, "%s child of a parent that could not be stored: %r" % (label, e))
+                    break
+                out["obs"]["children_of_a_parent_that_could_not_be_stored"] += 1
+                keys = sorted(got.list_keys())
+                vals = {k: got.get(k) for k in ("alpha", "gamma", "own", "shared") if k in keys}
+                if keys != ["alpha", "beta", "gamma", "own", "shared"] or vals != {"alpha": 1, "gamma": 3, "own": 7, "shared": "child's"}:
+                    fail("key set of the stored partition differs from the overlay of its parents",
+                         "%s: child of a parent whose store failed part-way, call %d: keys %s values %s" % (label, n, keys, vals))
         # at the very end, on a store without memory cache (the handle is nobody else's): a partition read back from the
         # store is given another level as merge parent and handed on - what the function returns, what a later call gets
         # and what is read back must be the same overlay (the handle's own entries win)
